@@ -924,6 +924,22 @@ def gen_static_array_init(decl, code, codegen):
 
     if decl.array_dims_are_const:
         # static array
+        # frame sizes and variable indices are 16-bit operands
+        if decl.var.is_global:
+            n_cells = sum(
+                get_type_size(codegen.compilation, vtype)
+                for vtype in code._globals.values()
+            )
+        else:
+            routine = decl.var.routine
+            n_cells = get_params_size(routine) + \
+                get_local_vars_size(routine)
+        if n_cells > 0xffff:
+            raise CompileError(
+                EC.INVALID_DIMENSIONS,
+                'Array is too large',
+                node=decl,
+            )
         code.add(
             (f'initarr{scope}',
              decl.var.full_name, len(decl.array_dims), element_size),
